@@ -2,9 +2,11 @@ SPECIFICATION GSpec
 CONSTANTS
   Servers = {"s1", "s2", "s3"}
   NWorkers = 3
+  Q = 3
+  StartFirst = FALSE
   KeyIds = {"k1", "k2"}
   DirectOutcomes = {"ok", "err"}
   NotaryOutcomes = {"ok", "err"}
   HasLocal = FALSE
-INVARIANTS TypeOK ExactUnion EachServerOnce NothingEarly Emit
+INVARIANTS TypeOK ExactUnion EachServerOnce NothingEarly QueueBound Emit
 CHECK_DEADLOCK FALSE
